@@ -291,6 +291,12 @@ def run(ctx, report):
             R4.ok(inst, sample='ad = %r is given the suffix size' % (mark,))
 
 
+    # ---------------------------------------------------------------- D5 parser-specific operand keys do not change the encoding
+    R5 = report.rule('C19.D5', 'the operand-size detection gives the same mode for the operands of the Intel and of the AT&T parser (register operands of the latter carry a txt memo)', floor=12)
+    from .c02 import fixed_reg_mode_rule
+    fixed_reg_mode_rule(ctx, R5)
+
+
 def disp_outside_rule(ctx, R):
     """`N[expr]`, `-N[expr]`, `N+sym[expr]`, `-N+sym[expr]` (gcc -masm=intel spellings): the grammar actions are evaluated on a synthetic
     parse (number 8, expression eax+5, symbol foo) and the resulting operand compared with [eax+5 (+foo) +/- 8]."""
@@ -362,6 +368,7 @@ def disp_outside_rule(ctx, R):
                 R.ok(inst, sample='%s -> displacement %d' % (' '.join(alt), want_imm))
     if n < 4:
         raise AnalysisError('only %d displacement-outside-brackets productions found in parse_ad' % n)
+
 
 
 MUTANTS = [
